@@ -4,6 +4,8 @@ use super::enc::*;
 use super::encprops::{five_pairs, Addrs};
 use super::*;
 use crate::engine::{Acc, Ix, ReplayOut};
+#[allow(unused_imports)]
+use crate::engine::Run as _Run;
 use crate::refmodel::*;
 use crate::subject::{self, DecOut, EncOut, Owned};
 use crate::types::*;
@@ -206,12 +208,45 @@ pub fn run(run: &mut Run) {
         };
         sweep(run, &s.name, s.n, &|i| s.get(i), &addrs);
     }
+    // encoder-call sequences (ENCSEQ): what the last call of every sequence produced must round-trip
+    super::encprops::sweep_encseq(run, "C01");
+    // every 128 x 128 (sender, destination) pair for the basic tuples, decoded by the *addressee*
+    // (a context at the destination address) and by a context holding the sender's address as EID
+    {
+        let basic = basic_calls();
+        let nb = basic.len() as u64;
+        run.sweep_chunked("30 kinds x 2 tuples x 128x128 (sender, destination), decoded by the addressee and by a context whose EID is the sender's address", nb * 128 * 128, |acc, lo, hi| {
+            for i in lo..hi {
+                let mut ix = Ix(i);
+                let dst = ix.take(128) as u8;
+                let src = ix.take(128) as u8;
+                let call = &basic[ix.0 as usize];
+                if !in_scope(call) {
+                    continue;
+                }
+                let spec = CtxSpec::fresh(Cfg::simple(src));
+                let so = Owned::new(&spec.cfg);
+                let sender = so.ctx();
+                let rspecs = vec![
+                    CtxSpec::fresh(Cfg::bare(dst)),
+                    CtxSpec { cfg: Cfg::bare(dst), history: vec![Event::Process(set_eid_req(0x7E, dst, 1, src))] },
+                ];
+                let ros: Vec<Owned> = rspecs.iter().map(|s| Owned::new(&s.cfg)).collect();
+                let rcs: Vec<MCTPSMBusContext> = ros.iter().zip(&rspecs).map(|(o, s)| build(o, &s.history)).collect();
+                let recv: Vec<(&str, &MCTPSMBusContext)> = vec![("addressee", &rcs[0]), ("addressee-with-sender-eid", &rcs[1])];
+                one(acc, &spec, &rspecs, &recv, &sender, call, dst, i);
+            }
+        });
+    }
     let basic = basic_calls();
     let addrs = if tier.thorough() { Addrs::All7 } else { Addrs::List(vec![(0x23, 0x34), (0, 0), (0x7F, 0x7F), (0x55, 0x2A), (1, 0x7E), (0x34, 0x23), (0x7E, 0x01)]) };
     sweep(run, "30 kinds x 2 tuples x addresses", basic.len() as u64, &|i| basic[i as usize].clone(), &addrs);
 }
 
 pub fn replay(case: &Value) -> Result<ReplayOut, String> {
+    if case["check"].as_str() == Some("encseq") {
+        return super::encprops::replay_enc("C01", case);
+    }
     let spec: CtxSpec = get_de(case, "sender")?;
     let rspecs: Vec<CtxSpec> = get_de(case, "receivers")?;
     let call: EncCall = get_de(case, "call")?;
@@ -220,7 +255,7 @@ pub fn replay(case: &Value) -> Result<ReplayOut, String> {
     let sender = build(&so, &spec.history);
     let ros: Vec<Owned> = rspecs.iter().map(|s| Owned::new(&s.cfg)).collect();
     let rcs: Vec<MCTPSMBusContext> = ros.iter().zip(&rspecs).map(|(o, s)| build(o, &s.history)).collect();
-    let names = ["fresh", "bare", "dirty", "own-config", "eid-equals-sender", "r5"];
+    let names = if rspecs.len() == 2 { ["addressee", "addressee-with-sender-eid", "", "", "", ""] } else { ["fresh", "bare", "dirty", "own-config", "eid-equals-sender", "r5"] };
     let mut recv: Vec<(&str, &MCTPSMBusContext)> = rcs.iter().enumerate().map(|(k, c)| (names[k.min(5)], c)).collect();
     recv.push(("sender", &sender));
     let j = judge(&sender, &recv, spec.cfg.addr, build_ref(&spec).eid_resp, &call, dst, false, true);
